@@ -137,6 +137,13 @@ func main() {
 	opts := defaultOpts(*tier)
 	opts.DumpDir = *dump
 	rs := x.solveAll(x.obls, opts)
+	if os.Getenv("GOVC_SLOW") != "" {
+		for _, r := range rs {
+			if r.Ms > 2500 && r.Obl.Kind != "cover" {
+				fmt.Printf("slow %6dms %-8s %-12s %s path=%v\n", r.Ms, r.Status, r.Backend, r.Obl.FullName(), lastN(r.Obl.Path, 6))
+			}
+		}
+	}
 	sums := summarize(rs)
 	bad := 0
 	for _, s := range sums {
